@@ -111,6 +111,19 @@ func c20R2(c *Ctx) {
 		ok2, why := clampedBetween(strip(el[0].V), isF(0), isF(100))
 		c.check(ok2, "showProgress/percent-clamped", c.ipos(ci), "the percentage formatted is clamped to 0..100", "the percentage can leave 0..100: "+why)
 	}
+	// the step is a peer value up to 2^62: scaling it in integer arithmetic overflows
+	eachInstr(f, func(in ssa.Instruction) {
+		b, ok := in.(*ssa.BinOp)
+		if !ok || (b.Op != token.MUL && b.Op != token.SHL) || !isIntegerOnly(b.Type()) {
+			return
+		}
+		for _, o := range []ssa.Value{b.X, b.Y} {
+			if isFieldLoad("fileStep")(o) || isFieldLoad("fileSize")(o) {
+				c.bad("showProgress/no-integer-scaling", c.ipos(b), "the step/size is multiplied in integer arithmetic: for sizes near 2^62 the product wraps and the percentage jumps backwards")
+			}
+		}
+	})
+	c.ok("showProgress/no-integer-scaling.checked", c.pos(f.Pos()), "step and size are scaled in floating point only")
 	c.check(n == 1, "showProgress/one-percent-format", c.pos(f.Pos()), "one percentage format", "unexpected number of percentage formats")
 }
 
@@ -142,6 +155,21 @@ func c20R3(c *Ctx) {
 	}
 	if n != 3 {
 		c.bad("fileStep/writers", "", fmt.Sprintf("expected three writers of the displayed step, found %d", n))
+	}
+	// the size a step is measured against is the whole source size on both ends of a resume
+	for _, nm := range []struct{ fn string }{{"trzszTransfer.sendPrefixHash"}, {"trzszTransfer.recvPrefixHash"}} {
+		g := c.fn(nm.fn)
+		for _, ci := range callsIn(g, idHasSuffix(".onSize")) {
+			good := true
+			for _, l := range origins(ci.Common().Args[0], originOpts{}) {
+				call, idx := callOf(l.V)
+				isRecvSize := call != nil && idx == 0 && calleeID(&call.Call) == tT+"recvInteger"
+				if !isRecvSize && !(isFieldLoad("Size")(l.V) && func() bool { b, _, _ := fieldOf(l.V); return isVar("srcFile")(b) }()) {
+					good = false
+				}
+			}
+			c.check(good, nm.fn+"/onSize=source-size", c.ipos(ci), "during the resume comparison the progress is measured against the whole source size", "during the resume comparison the progress size is not the source size: the percentage reaches 100% and then drops")
+		}
 	}
 }
 
